@@ -131,7 +131,7 @@ class TLCResult:
         return res
 
 
-def tlc(module, cfg, wd, workers=4, env=None, args=(), timeout=3600, heap="6g", deque=False, stack=False):
+def tlc(module, cfg, wd, workers=4, env=None, args=(), timeout=3600, heap="6g", deque=False, stack=True):
     """Run TLC on /verif/specs/<module>.tla with /verif/specs/<cfg>. Raises ToolError on crash/timeout."""
     md = os.path.join(wd, "tlc_" + os.path.splitext(os.path.basename(cfg))[0])
     shutil.rmtree(md, ignore_errors=True)
